@@ -145,6 +145,9 @@ type expectation struct {
 	// from a file whose HEAD version still exists (same path) and holds an invalid rule
 	invalidAtHead     int
 	warnNextToInvalid int
+	// rules whose own expression pint cannot parse: present at HEAD, and expected warnings ON such rules
+	unparsableAtHead int
+	warnOnUnparsable int
 }
 
 func expected(h hist.History, rx relax) (expectation, error) {
@@ -170,7 +173,12 @@ func expected(h hist.History, rx relax) (expectation, error) {
 			}
 			u, err := usesOf(r.Expr)
 			if err != nil {
-				return ex, fmt.Errorf("%w: generated expression %q does not parse: %v", errHarness, r.Expr, err)
+				if !isUnparsable(r.Expr) {
+					return ex, fmt.Errorf("%w: generated expression %q does not parse: %v", errHarness, r.Expr, err)
+				}
+				// an expression from the unparsable pool selects none of the vocabulary's
+				// metrics: the rule is no dependant (it is still a provider under its name)
+				ex.unparsableAtHead++
 			}
 			hrs = append(hrs, headRule{r, f.Path, infos[i].ExprLine, u})
 			headCount[r.NameKey()]++
@@ -252,6 +260,9 @@ func expected(h hist.History, rx relax) (expectation, error) {
 			}
 			if len(deps) > 0 && stillThere && hf.File.InvalidCount() > 0 {
 				ex.warnNextToInvalid++
+			}
+			if len(deps) > 0 && isUnparsable(r.Expr) {
+				ex.warnOnUnparsable++
 			}
 			if len(deps) > 0 {
 				ex.warns = append(ex.warns, Warn{Path: f.Path, Line: infos[i].First, Name: r.Name, Severity: "Warning", Deps: deps})
@@ -416,6 +427,30 @@ const classNameMatcher = "dependant-selects-by-name-matcher"
 // (hist.LostRenameSources).
 const classLostSource = "rename-onto-deleted-path-then-touched"
 
+// classFileToDir: a path that held a rule file at the fork point or on the branch is a
+// directory at HEAD (file deleted, later a file created below a directory of that name).
+const classFileToDir = "file-replaced-by-directory"
+
+func fileToDir(h hist.History) bool {
+	was := map[string]bool{}
+	for _, f := range h.Fork() {
+		was[f.Path] = true
+	}
+	for _, c := range h.Branch {
+		for _, f := range c.Tree {
+			was[f.Path] = true
+		}
+	}
+	for _, f := range h.Head() {
+		for p := range was {
+			if strings.HasPrefix(f.Path, p+"/") {
+				return true
+			}
+		}
+	}
+	return false
+}
+
 func judge(h hist.History, got []Warn) (expectation, string, error) {
 	ex, err := expected(h, relax{})
 	if err != nil {
@@ -429,6 +464,9 @@ func judge(h hist.History, got []Warn) (expectation, string, error) {
 		if rex, e2 := expected(h, relax{ignoreNameMatcher: true}); e2 == nil && compare(rex.warns, got, nil) == nil {
 			return ex, classNameMatcher, err
 		}
+	}
+	if fileToDir(h) {
+		return ex, classFileToDir, err
 	}
 	if lost := h.LostRenameSources(); len(lost) > 0 {
 		if compare(ex.warns, got, lost) == nil {
@@ -487,8 +525,25 @@ var templates = []string{
 	`count(%s or %s or %s) > 0`,
 }
 
+// unparsable: expressions pint's PromQL parser rejects (experimental functions it never
+// enables, plainly broken queries). None of them mentions a vocabulary name, so such a rule
+// is never a dependant; it still produces a metric / alert under its own name.
+var unparsable = []string{`mad_over_time(foo[5m])`, `limitk(2, foo)`, `sum(`, `foo{`}
+
+func isUnparsable(e string) bool {
+	for _, u := range unparsable {
+		if u == e {
+			return true
+		}
+	}
+	return false
+}
+
 func exprGen(nameMatcher bool, excluded *int64) func(t *rapid.T, lbl string) string {
 	return func(t *rapid.T, lbl string) string {
+		if rapid.IntRange(0, 7).Draw(t, lbl+".unparsable") == 0 {
+			return unparsable[rapid.IntRange(0, len(unparsable)-1).Draw(t, lbl+".which")]
+		}
 		n := 0
 		// one expression in six selects the SAME metric several times with different
 		// names/matchers (several ALERTS{alertname=..} or several ALERTS_FOR_STATE or
@@ -569,7 +624,7 @@ func profile(nameMatcher bool, excluded *int64) hist.Profile {
 			"file-add": 1, "file-del": 4, "rename": 2, "rename-edit": 1,
 			"rule-add": 3, "rule-mod": 3, "rule-del": 8, "rule-dup": 1, "rule-swap": 1,
 			"cosmetic": 2, "revert": 1, "replace": 4, "name-del": 5, "invalid-add": 2, "invalid-del": 1,
-			"del-dup-first": 3, "consume": 3,
+			"del-dup-first": 3, "consume": 3, "file-dir": 2,
 		},
 		Cosmetics:        true,
 		ChainOneIn:       4,
@@ -640,11 +695,18 @@ func TestPropRemoval(t *testing.T) {
 	_, listed := known[classNameMatcher]
 	var excluded int64
 	p := profile(!listed, &excluded)
+	_, p.NoFileDir = known[classFileToDir]
 	binOneIn := vstat.EnvInt("VERIF_C20_BIN_ONE_IN", 6)
 	defer func() { rec.Count("excluded_by_construction:"+classNameMatcher, excluded) }()
 	rapid.Check(t, func(rt *rapid.T) {
 		c := Case{History: hist.Gen(rt, p)}
-		c.Bin = rapid.IntRange(0, binOneIn-1).Draw(rt, "bin") == 0 && os.Getenv("VERIF_PINT_BIN") != ""
+		c.Bin = rapid.IntRange(0, binOneIn-1).Draw(rt, "bin") == 0
+		// what happens to a removed rule that pint cannot fully parse is decided in
+		// cmd/pint (checkRules), which only the real binary runs: always take it there
+		if ex0, e0 := expected(c.History, relax{}); e0 == nil && ex0.warnOnUnparsable > 0 {
+			c.Bin = true
+		}
+		c.Bin = c.Bin && os.Getenv("VERIF_PINT_BIN") != ""
 		ex, class, err := run(c, cfg)
 		if errors.Is(err, errHarness) {
 			rt.Fatalf("harness failure (not a verdict about pint): %v", err)
@@ -662,6 +724,8 @@ func TestPropRemoval(t *testing.T) {
 		rec.Count("names_gone_without_dependants", int64(ex.goneNoDeps))
 		rec.Count("names_replaced_or_reduced", int64(ex.replaced))
 		rec.Count("invalid_rules_at_head", int64(ex.invalidAtHead))
+		rec.Count("rules_with_unparsable_expr_at_head", int64(ex.unparsableAtHead))
+		rec.Count("expected_warnings_on_removed_rules_with_unparsable_expr", int64(ex.warnOnUnparsable))
 		rec.Count("expected_warnings_in_files_with_invalid_rule_at_head", int64(ex.warnNextToInvalid))
 		if c.Bin {
 			rec.Count("binary_runs", 1)
@@ -769,6 +833,14 @@ func minimalCases() map[string]Case {
 				{Msg: "delete b", Ops: []string{"file-del rules/b.yml"}, Tree: tree(map[string]hist.File{"rules/a.yml": oneGroup(prov), "rules/c.yml": oneGroup(plain)})},
 				{Msg: "rename a to b", Ops: []string{"rename rules/a.yml->rules/b.yml"}, Renames: [][2]string{{"rules/a.yml", "rules/b.yml"}}, Tree: tree(map[string]hist.File{"rules/b.yml": oneGroup(prov), "rules/c.yml": oneGroup(plain)})},
 				{Msg: "replace the provider", Ops: []string{"rule-del rules/b.yml", "rule-add rules/b.yml"}, Tree: tree(map[string]hist.File{"rules/b.yml": oneGroup(filler2), "rules/c.yml": oneGroup(plain)})},
+			},
+		}},
+		// the provider's file "alerts" is deleted and a directory alerts/ with a rule file appears in the next commit
+		"file-replaced-by-directory": {Bin: true, History: hist.History{
+			Base: []hist.Commit{{Msg: "base", Tree: tree(map[string]hist.File{"alerts": oneGroup(prov), "rules/c.yml": oneGroup(plain)})}},
+			Branch: []hist.Commit{
+				{Msg: "delete the file", Ops: []string{"file-del alerts"}, Tree: tree(map[string]hist.File{"rules/c.yml": oneGroup(plain)})},
+				{Msg: "create a directory of that name", Ops: []string{"file-to-dir alerts/g.yaml replaces alerts"}, Tree: tree(map[string]hist.File{"alerts/g.yaml": oneGroup(filler), "rules/c.yml": oneGroup(plain)})},
 			},
 		}},
 		// control: the same history with a plain selector is reported
